@@ -30,11 +30,14 @@ func HookPoint(name string) {
 	x ^= x >> 31
 	x *= 0xbf58476d1ce4e5b9
 	x ^= x >> 29
+	if name == "h2.relay.writer.beforeSend" {
+		if g, _ := s.gate.Load().(chan struct{}); g != nil {
+			<-g // closed by openGate
+		}
+	}
 	if s.Plan.SlowWriter && name == "h2.relay.writer.beforeSend" {
 		// a slow destination: the 15-slot output channel of the relay fills up
-		if x%3 != 0 {
-			time.Sleep(time.Duration(200+x>>8%1800) * time.Microsecond)
-		}
+		time.Sleep(time.Duration(300+x>>8%1200) * time.Microsecond)
 		return
 	}
 	if atomic.LoadInt32(&s.hookOn) == 2 {
@@ -284,6 +287,12 @@ func (s *Session) applyChange(c Change) bool {
 		if !e.ample() || !e.awaitDelivered() {
 			return false
 		}
+		// ... including frames of the peer that are only compared as a prefix (streams e has reset): a
+		// PING round trip started by the peer proves that the relay has read and decoded everything the
+		// peer sent (a header block still in flight would meet an already shrunk HPACK table)
+		if !e.peer().barrierRT("settings", "barrier") {
+			return false
+		}
 	} else {
 		s.mu.Lock()
 		e.applyOwn(c.ID, c.Val)
@@ -451,6 +460,10 @@ func (e *endpoint) runControl(ph *Phase, phi int) {
 				return
 			}
 		}
+		if st.Act == "gated" {
+			e.gatedGrant(ph.Ops[1-e.idx])
+			continue
+		}
 		if st.Act == "exact" {
 			if !e.exact(st.SF) {
 				return
@@ -521,6 +534,9 @@ func (e *endpoint) runScript(ops []*Op) {
 		s.mu.Unlock()
 	}()
 	for _, o := range ops {
+		if !s.waitDep(func() bool { return !e.hold }) { // a gated grant of the peer's controller is in progress
+			return
+		}
 		if !e.sendOp(o) {
 			return
 		}
@@ -741,4 +757,115 @@ func (e *endpoint) sendOp(o *Op) bool {
 		e.werr(e.fr.WriteGoAway(o.Last, http2.ErrCode(o.Code), o.Debug), "GOAWAY")
 	}
 	return true
+}
+
+// closeGate makes the relay's writer goroutines block at their beforeSend hook
+// point (a destination that has stopped reading); openGate releases them.
+func (s *Session) closeGate() {
+	s.gateMu.Lock()
+	if s.gateCh == nil && !s.gateDead {
+		s.gateCh = make(chan struct{})
+		s.gate.Store(s.gateCh)
+	}
+	s.gateMu.Unlock()
+}
+
+func (s *Session) openGate(forever bool) {
+	s.gateMu.Lock()
+	if s.gateCh != nil {
+		close(s.gateCh)
+		s.gateCh = nil
+		s.gate.Store((chan struct{})(nil))
+	}
+	if forever {
+		s.gateDead = true
+	}
+	s.gateMu.Unlock()
+}
+
+// gatedGrant: with the relay's writers held, grant one large stream-level
+// window to the stream with the most DATA held back (so that a batch of frames
+// is released at once), let the sender's following frames reach the relay, then
+// let the writers go. No verdict is taken here; it only shapes the schedule.
+func (e *endpoint) gatedGrant(ops []*Op) {
+	s := e.s
+	p := e.peer()
+	s.closeGate()
+	defer s.openGate(false)
+	// hold the peer's script so that its next frame on the chosen stream comes after the grant
+	s.mu.Lock()
+	p.hold = true
+	s.mu.Unlock()
+	release := func() {
+		s.mu.Lock()
+		if p.hold {
+			p.hold = false
+			s.bump()
+		}
+		s.mu.Unlock()
+	}
+	defer release()
+	vh.Settle(s.activity, 3, 2*time.Millisecond, time.Second)
+	s.mu.Lock()
+	// the stream with the most DATA held back on which the peer still has something to send
+	remaining := map[uint32]int{}
+	for i := p.pos; i < len(ops); i++ {
+		if ops[i].K < OpSettings {
+			remaining[ops[i].S]++
+		}
+	}
+	var best uint32
+	var bestU int64
+	for id := range s.tr[1-e.idx] {
+		if !e.fullCompare(id) || !e.known[id] || e.closedFor(id) || remaining[id] == 0 {
+			continue
+		}
+		if u := e.undelivered(id); u > e.streamWin(id) && u > bestU {
+			best, bestU = id, u
+		}
+	}
+	needConn := e.totalUndelivered() - e.connWin()
+	pos0 := p.pos
+	f := s.failed
+	s.mu.Unlock()
+	if best == 0 || f {
+		return
+	}
+	e.wmu.Lock()
+	if needConn > 0 {
+		e.writeWU(0, uint32(needConn))
+	}
+	e.writeWU(best, 1<<24)
+	e.wmu.Unlock()
+	s.mu.Lock()
+	if e.maxIncSent < 1<<24 {
+		e.maxIncSent = 1 << 24
+	}
+	s.GatedGrants++
+	if debugLog {
+		fmt.Printf("DEBUG gated grant by %s: stream %d undelivered %d streamWin %d remaining %d pos %d/%d class %s\n", e.name(), best, bestU, e.streamWin(best), remaining[best], pos0, len(ops), s.Plan.WinClass[e.idx])
+	}
+	s.mu.Unlock()
+	// the relay takes the released batch (its writers are held) ...
+	vh.Settle(s.activity, 3, 2*time.Millisecond, time.Second)
+	// ... then the peer's next frames on that stream arrive (bounded wait; shapes the schedule only)
+	want := len(ops)
+	for i := pos0; i < len(ops); i++ {
+		if ops[i].K < OpSettings && ops[i].S == best {
+			want = i + 1
+			break
+		}
+	}
+	release()
+	deadline := time.Now().Add(300 * time.Millisecond)
+	for time.Now().Before(deadline) {
+		s.mu.Lock()
+		stop := p.pos >= want || p.done || s.failed
+		s.mu.Unlock()
+		if stop {
+			break
+		}
+		time.Sleep(500 * time.Microsecond)
+	}
+	vh.Settle(s.activity, 3, 2*time.Millisecond, time.Second)
 }
